@@ -173,12 +173,24 @@ def indices_case(draw):
     parts = []
     for _ in range(draw(st.integers(1, 3))):
         if draw(st.booleans()):
-            parts.append(str(draw(st.integers(0, ncol - 1))))
+            parts.append(str(draw(st.integers(-ncol, ncol - 1))))  # python semantics: -1 is the last column
         else:
             a = draw(st.integers(0, ncol - 1))
             b = draw(st.integers(a + 1, ncol))
-            step = draw(st.sampled_from([None, None, 2, 3]))
-            parts.append("%d:%d" % (a, b) + (":%d" % step if step else ""))
+            step = draw(st.sampled_from([None, None, 2, 3, -1]))
+            form = draw(st.sampled_from(["ab", "ab", "a:", ":b", "neg", ":"]))
+            if step == -1:
+                parts.append("::-1" if form in (":", "a:", ":b") else "%d:%s:-1" % (b - 1, "" if a == 0 else str(a - 1)))
+            elif form == "a:":
+                parts.append("%d:" % a + (":%d" % step if step else ""))
+            elif form == ":b":
+                parts.append(":%d" % b + (":%d" % step if step else ""))
+            elif form == "neg":
+                parts.append("%d:%s" % (a - ncol, "" if b == ncol else str(b - ncol)) + (":%d" % step if step else ""))
+            elif form == ":":
+                parts.append(":" + (":%d" % step if step else ""))
+            else:
+                parts.append("%d:%d" % (a, b) + (":%d" % step if step else ""))
     c["indices"] = ",".join(parts)
     return c
 
